@@ -74,7 +74,20 @@ fn pick_edit(p: &crate::gen::sem::Program, class: &str, pick: usize) -> Option<E
             // (not inside the name of a def: there an identifier that denotes nothing stands for itself,
             // `def R#undefined_name` is a record called Rundefined_name)
             c.retain(|o| !p.spans.iter().any(|sp| sp.2 == "iterator-in-def-name" && sp.0 == o.file && sp.1 .0 <= o.range.0 && o.range.1 <= sp.1 .1));
+            // (the names of the records that defms and loops define are values as well, with no identifier
+            // that declares them)
+            let composed: Vec<crate::gen::sem::Occ> = p.spans.iter().filter(|sp| sp.2 == "composed-record-name").map(|sp| crate::gen::sem::Occ { file: sp.0, range: sp.1, role: Role::Use(0) }).collect();
+            c.extend(composed.iter());
             let o = c.get(pick % c.len().max(1))?;
+            // a name that is declared nowhere, or - every other time - a near miss: the name that stands
+            // there with one more character (generated names end in a number, none of them in `x`). Not in
+            // a program that computes the names of records (`def R#i`): whatever begins like such a
+            // record may be one, for all the server knows
+            let computed_names = p.spans.iter().any(|sp| sp.2 == "iterator-in-def-name");
+            let old = p.files[o.file].1.get(o.range.0..o.range.1).unwrap_or("");
+            if (pick / c.len().max(1)) % 2 == 1 && !computed_names && !old.is_empty() {
+                return Some(ident_edit(o, format!("{old}x"), "identifier in a value extended by one character (no such name)".into()));
+            }
             Some(ident_edit(o, "undefined_name".into(), "identifier in a value replaced by an undeclared one".into()))
         }
         "undefined-field" => {
@@ -257,8 +270,10 @@ fn seeded(p: &crate::gen::sem::Program, class: &str, pick: usize) -> Verdict {
             ),
         ));
     }
-    // a fault in the root does not touch the files it includes
-    if e.file == 0 {
+    // a fault in the root does not touch the files it includes - unless one of them uses what the root
+    // declares in front of the include (an include is textual)
+    let header_uses_root = p.occs.iter().any(|o| o.file != 0 && matches!(&o.role, crate::gen::sem::Role::Use(d) if p.decls[*d].file == 0));
+    if e.file == 0 && !header_uses_root {
         for (f, ds) in &diags {
             if *f != fid {
                 if let Some(d) = ds.first() {
@@ -385,7 +400,7 @@ impl Property for C13 {
                 let mut tmpl = message_template(&d.message);
                 // narrower root cause: the (innermost) uncommon construct the diagnostic points into
                 let fi = p.files.iter().position(|x| crate::ws::abs(&x.0) == path);
-                if let Some(sp) = p.spans.iter().filter(|sp| sp.2 != "list-literal" && Some(sp.0) == fi && sp.1 .0 <= s && s < sp.1 .1).min_by_key(|sp| sp.1 .1 - sp.1 .0) {
+                if let Some(sp) = p.spans.iter().filter(|sp| sp.2 != "list-literal" && sp.2 != "composed-record-name" && Some(sp.0) == fi && sp.1 .0 <= s && s < sp.1 .1).min_by_key(|sp| sp.1 .1 - sp.1 .0) {
                     tmpl = format!("{}|{}", sp.2, tmpl);
                 }
                 return Verdict::Fail(Failure::new(
